@@ -1,3 +1,16 @@
 import SSVerif.Props.C10
 open SSVerif.TextIn
-#print axioms C10_fsgRead_total
+#print axioms C10_parsers_total
+#print axioms C10_line_loop_bounded
+#print axioms C10_nextLine_in_bounds
+#print axioms C10_lines_tile_buffer
+#print axioms C10_nextWord_in_bounds
+#print axioms C10_words_in_line
+#print axioms C10_json_tokens_in_bounds
+#print axioms C10_int_conversions_in_range
+#print axioms C10_fsg_wf
+#print axioms C10_prob_test_exact
+#print axioms C10_dict_wf
+#print axioms C10_addWord_wf
+#print axioms C10_align_wf
+#print axioms C10_config_wf
